@@ -127,7 +127,10 @@ def dec_doc(s):
 
 
 def run_model(docs):
-    """[doc] -> [(elab dump | {'error':..}, emitted doc | None, re-elab dump | None)]"""
+    """[doc] -> [(elab dump | {'error':..}, emitted doc | None, re-elab dump | None, predicates)]
+    predicates = {'supported', 'roundtrippable', 'rt_check', 'written_supported'}: the boolean
+    predicates of BlifSpec (supported d, roundtrippable n, equiv_b n (elab (emit n)), supported (emit n)) evaluated by the
+    extracted model; None when the model has no netlist for the document"""
     inp = []
     for d in docs:
         inp.append('doc')
@@ -139,14 +142,17 @@ def run_model(docs):
         raise RuntimeError('driver_eblif failed: ' + r.stderr[-500:])
     lines = r.stdout.split('\n')
     out = []
+    tri = {'1': True, '0': False, '-': None}
     for k in range(len(docs)):
-        e, w, rr = lines[3 * k:3 * k + 3]
-        assert e.startswith('E ') and w.startswith('W ') and rr.startswith('R '), (e[:40], w[:40], rr[:40])
+        e, w, rr, pp = lines[4 * k:4 * k + 4]
+        assert e.startswith('E ') and w.startswith('W ') and rr.startswith('R ') and pp.startswith('P '), (e[:40], w[:40], rr[:40], pp[:40])
         ej = json.loads(e[2:])
+        ps = pp.split()
+        preds = {'supported': tri[ps[1]], 'roundtrippable': tri[ps[2]], 'rt_check': tri[ps[3]], 'written_supported': tri[ps[4]]}
         if w == 'W !':
-            out.append((ej, None, None))
+            out.append((ej, None, None, preds))
         else:
-            out.append((ej, dec_doc(w[2:]), json.loads(rr[2:])))
+            out.append((ej, dec_doc(w[2:]), json.loads(rr[2:]), preds))
     return out
 
 
